@@ -1,10 +1,277 @@
-import EvoModel.Model.Ape
-import EvoModel.Lemmas.Lin
+/-
+C01 — APE values equal the definition, pose by pose.
+
+Model: `Model/Ape.lean` (`apeCore`, `ape`, `apePlan`), tied to `evo/core/metrics.py`,
+`evo/main_ape.py`, `evo/common_ape_rpe.py` by `harness/props/C01.py` on every run.
+The error values are the exact rational cores (`Core`: radicand of the final `sqrt`, or the
+`(cos, sin²)` pair of the final `atan2`); `*_real` theorems interpret them over ℝ.
+Rigidity hypotheses: `IsRigid p` = `RᵀR = 1` for the rotation block, `IsRot` adds `det = 1`.
+-/
+import EvoModel.Lemmas.Metrics
+import EvoModel.Lemmas.MetricsReal
 namespace Evo.C01
 open Evo
 
+/-! ### one value per pose, in input order, equal to the definition of that pair -/
+
+/-- exactly one value per pose -/
+theorem ape_length {rel : PoseRelation} {ref est : List (Pose Rat)} {vs : List (Core Rat)}
+    (h : ape rel ref est = .ok vs) : vs.length = ref.length ∧ vs.length = est.length := by
+  obtain ⟨hl, _, _, rfl⟩ := ape_ok_iff.mp h
+  constructor <;> simp [List.length_zipWith, hl]
+
+/-- value `k` is the definition applied to reference pose `k` and estimate pose `k` -/
+theorem ape_get {rel : PoseRelation} {ref est : List (Pose Rat)} {vs : List (Core Rat)}
+    (h : ape rel ref est = .ok vs) (k : Nat) (hr : k < ref.length) (he : k < est.length) :
+    vs[k]? = some (apeCore rel ref[k] est[k]) := by
+  obtain ⟨_, _, _, rfl⟩ := ape_ok_iff.mp h
+  rw [List.getElem?_zipWith, List.getElem?_eq_getElem hr, List.getElem?_eq_getElem he]
+
+/-- the definitions themselves, relation by relation (`E = est⁻¹·ref` with the transpose-based inverse) -/
+theorem apeCore_definition (ref est : Pose Rat) :
+    apeCore .trans ref est = .sqrt (V3.normSq (V3.sub est.t ref.t)) ∧
+    apeCore .pointDist ref est = .sqrt (V3.normSq (V3.sub est.t ref.t)) ∧
+    apeCore .rot ref est = .sqrt (M3.frobSq (M3.sub (Pose.rel est ref).rot M3.one)) ∧
+    apeCore .full ref est = .sqrt (M3.frobSq (M3.sub (Pose.rel est ref).rot M3.one) + V3.normSq (Pose.rel est ref).t) ∧
+    apeCore .angleRad ref est = .angle (Pose.rel est ref).rot.angleCore.1 (Pose.rel est ref).rot.angleCore.2 false ∧
+    apeCore .angleDeg ref est = .angle (Pose.rel est ref).rot.angleCore.1 (Pose.rel est ref).rot.angleCore.2 true :=
+  ⟨rfl, rfl, rfl, rfl, rfl, rfl⟩
+
+/-- sequences of different length are refused, not truncated -/
 theorem ape_refuses_unequal (rel : PoseRelation) (ref est : List (Pose Rat)) (h : ref.length ≠ est.length) :
     ape rel ref est = .error .unequal := by
-  unfold ape; simp [h]
+  unfold ape; rw [if_pos h]
+
+/-- nothing else is refused for proper rigid poses: equal lengths and a relation APE supports give all values -/
+theorem ape_total_of_rot (rel : PoseRelation) (ref est : List (Pose Rat)) (hl : ref.length = est.length)
+    (hrel : rel ≠ .ratio) (hr : ∀ p ∈ ref, IsRot p.rot) (he : ∀ p ∈ est, IsRot p.rot) :
+    ape rel ref est = .ok (List.zipWith (apeCore rel) ref est) := by
+  rw [ape_ok_iff]
+  refine ⟨hl, hrel, ?_, rfl⟩
+  rintro ⟨_, h⟩
+  rw [apeRots_all_of_isRot hr he] at h
+  cases h
+
+/-- APE does not support the error-ratio relation (`MetricsException`) -/
+theorem ape_refuses_ratio (ref est : List (Pose Rat)) (hl : ref.length = est.length) :
+    ape .ratio ref est = .error .unsupported := by
+  unfold ape; rw [if_neg (not_not.mpr hl), if_pos rfl]
+
+/-! ### zero / common motion / swap — all seven relations -/
+
+/-- coinciding poses have error zero -/
+theorem ape_zero_of_eq (rel : PoseRelation) (p : Pose Rat) (hp : IsRigid p) : (apeCore rel p p).IsZero :=
+  apeCore_self rel hp
+
+/-- … hence every value of `ape rel l l` is zero -/
+theorem ape_zero_of_eq_list (rel : PoseRelation) (l : List (Pose Rat)) (vs : List (Core Rat))
+    (hl : ∀ p ∈ l, IsRigid p) (h : ape rel l l = .ok vs) : ∀ v ∈ vs, v.IsZero := by
+  obtain ⟨_, _, _, rfl⟩ := ape_ok_iff.mp h
+  intro v hv
+  rw [List.mem_iff_getElem] at hv
+  obtain ⟨k, hk, rfl⟩ := hv
+  rw [List.getElem_zipWith]
+  exact apeCore_self rel (hl _ (List.getElem_mem _))
+
+/-- the same rigid motion applied to reference and estimate changes no value -/
+theorem ape_invariant_common_motion (rel : PoseRelation) (T ref est : Pose Rat) (hT : IsRigid T) :
+    apeCore rel (T.mul ref) (T.mul est) = apeCore rel ref est :=
+  apeCore_common_motion rel hT ref est
+
+/-- … for whole trajectories, including the refusals -/
+theorem ape_invariant_common_motion_list (rel : PoseRelation) (T : Pose Rat) (hT : IsRigid T)
+    (ref est : List (Pose Rat)) :
+    ape rel (ref.map T.mul) (est.map T.mul) = ape rel ref est := by
+  have hrots : apeRots (ref.map T.mul) (est.map T.mul) = apeRots ref est := by
+    unfold apeRots
+    rw [List.zipWith_map]
+    congr 1
+    funext r e
+    simp only [apeBase, Pose.rel_left_invariant T e r hT]
+  have hvals : List.zipWith (apeCore rel) (ref.map T.mul) (est.map T.mul) = List.zipWith (apeCore rel) ref est := by
+    rw [List.zipWith_map]
+    congr 1
+    funext r e
+    exact apeCore_common_motion rel hT r e
+  unfold ape
+  rw [hrots, hvals, List.length_map, List.length_map]
+
+/-- swapping reference and estimate changes no value -/
+theorem ape_swap (rel : PoseRelation) (ref est : Pose Rat) (hr : IsRigid ref) (he : IsRigid est) :
+    apeCore rel est ref = apeCore rel ref est :=
+  apeCore_swap rel hr he
+
+/-- … for whole trajectories of proper rigid poses -/
+theorem ape_swap_list (rel : PoseRelation) (ref est : List (Pose Rat))
+    (hr : ∀ p ∈ ref, IsRot p.rot) (he : ∀ p ∈ est, IsRot p.rot) :
+    ape rel est ref = ape rel ref est := by
+  by_cases hl : ref.length = est.length
+  · by_cases hrel : rel = .ratio
+    · subst hrel; rw [ape_refuses_ratio _ _ hl, ape_refuses_ratio _ _ hl.symm]
+    · rw [ape_total_of_rot rel ref est hl hrel hr he, ape_total_of_rot rel est ref hl.symm hrel he hr]
+      congr 1
+      apply List.ext_getElem
+      · simp only [List.length_zipWith, Nat.min_comm]
+      · intro k h1 h2
+        rw [List.getElem_zipWith, List.getElem_zipWith]
+        exact apeCore_swap rel (hr _ (List.getElem_mem _)).1 (he _ (List.getElem_mem _)).1
+  · rw [ape_refuses_unequal _ _ _ hl, ape_refuses_unequal _ _ _ (fun h => hl h.symm)]
+
+/-! ### the reported real number -/
+
+/-- every reported value is a non-negative real; angles lie in `[0, π]` (rad) resp. `[0, 180]` (deg) -/
+theorem ape_value_real_range (c : Core ℝ) : 0 ≤ c.value ∧
+    (∀ a s, c = .angle a s false → c.value ≤ Real.pi) ∧ (∀ a s, c = .angle a s true → c.value ≤ 180) :=
+  ⟨Core.value_nonneg c, fun a s h => h ▸ Core.value_angle_rad_le a s, fun a s h => h ▸ Core.value_angle_deg_le a s⟩
+
+/-- a zero core is reported as `0` -/
+theorem ape_value_real_zero (c : Core ℝ) (h : c.IsZero) : c.value = 0 := Core.value_of_isZero h
+
+/-- the angle reported for a proper rotation `R` is its geodesic angle: `θ ∈ [0, π]` with
+`cos θ = (tr R − 1)/2` and `sin θ = ‖vee((R − Rᵀ)/2)‖` -/
+theorem angle_is_geodesic (R : M3 ℝ) (h : IsRot R) :
+    let θ := (Core.angle R.angleCore.1 R.angleCore.2 false).value
+    0 ≤ θ ∧ θ ≤ Real.pi ∧ Real.cos θ = (R.trace - 1) / 2 ∧ Real.sin θ = Real.sqrt (R.axisVec.normSq) :=
+  angle_geodesic R h
+
+/-- the zero / common-motion / swap laws hold for the reported real numbers, over ℝ-valued poses -/
+theorem ape_value_real_laws (rel : PoseRelation) (T ref est : Pose ℝ) (hT : IsRigid T) (hr : IsRigid ref)
+    (he : IsRigid est) :
+    (apeCore rel ref ref).value = 0 ∧
+    (apeCore rel (T.mul ref) (T.mul est)).value = (apeCore rel ref est).value ∧
+    (apeCore rel est ref).value = (apeCore rel ref est).value :=
+  ⟨Core.value_of_isZero (apeCore_self rel hr), by rw [apeCore_common_motion rel hT], by rw [apeCore_swap rel hr he]⟩
+
+/-- casting the rational core to ℝ is the core of the cast poses -/
+theorem ape_core_cast (rel : PoseRelation) (ref est : Pose Rat) :
+    (apeCore rel ref est).map (fun q : Rat => (q : ℝ)) = apeCore rel (ref.map (fun q : Rat => (q : ℝ))) (est.map (fun q : Rat => (q : ℝ))) :=
+  apeCore_map_cast rel ref est
+
+/-! ### evo_ape: option → step wiring, for every option combination -/
+
+/-- the steps come in the documented order (strictly increasing rank, so each at most once):
+downsample < motion filter < crop reference < associate < align < origin < project < metric < unit -/
+theorem apePlan_order (o : CommonOpts) (steps : List Step) (h : apePlan o = .ok steps) :
+    (steps.map Step.rank).Pairwise (· < ·) := by
+  obtain ⟨pre, hp, rfl⟩ := apePlan_ok_iff.mp h
+  obtain ⟨hs, hlt⟩ := prePlan_sorted hp
+  simp only [List.map_append, List.pairwise_append, List.mem_append, List.mem_map, List.map_cons, List.map_nil,
+    List.mem_singleton]
+  refine ⟨⟨hs, List.pairwise_singleton _ _, ?_⟩, pairwise_rank_single _ (length_unitPart o), ?_⟩
+  · rintro a ⟨s, hs, rfl⟩ b rfl
+    exact hlt s hs
+  · rintro a (⟨s, hs, rfl⟩ | rfl) b ⟨t, ht, rfl⟩ <;> rw [rank_unitPart ht]
+    · exact Nat.lt_trans (hlt s hs) (by decide)
+    · simp [Step.rank]
+
+/-- which Umeyama variant runs: `-a` SE(3), `-a -s` Sim(3), `-s` alone scale only, neither: none;
+always with `n = n_to_align` -/
+theorem apePlan_align (o : CommonOpts) (steps : List Step) (h : apePlan o = .ok steps) (k : AlignKind) (n : Int) :
+    Step.align k n ∈ steps ↔ alignKind o.align o.correctScale = some k ∧ n = o.nToAlign := by
+  obtain ⟨pre, hp, rfl⟩ := apePlan_ok_iff.mp h
+  rw [List.append_assoc, mem_of_rank_lt (apeTail_rank o) (by simp [Step.rank])]
+  exact mem_pre_align_iff hp
+
+/-- scale-only correction ⟺ `correct_scale ∧ ¬ align` -/
+theorem apePlan_onlyScale (o : CommonOpts) (steps : List Step) (h : apePlan o = .ok steps) (n : Int) :
+    Step.align .scaleOnly n ∈ steps ↔ (o.correctScale = true ∧ o.align = false) ∧ n = o.nToAlign := by
+  rw [apePlan_align o steps h]
+  have : alignKind o.align o.correctScale = some .scaleOnly ↔ (o.correctScale = true ∧ o.align = false) := by
+    cases o.align <;> cases o.correctScale <;> decide
+  rw [this]
+
+/-- the time range is applied to the reference only (`cropRef`), exactly when `t_start` or `t_end` is given
+(`0` included, finding F9) and the trajectories have timestamps, with the given bounds … -/
+theorem apePlan_crop (o : CommonOpts) (steps : List Step) (h : apePlan o = .ok steps) (s e : Option Rat) :
+    Step.cropRef s e ∈ steps ↔
+      o.hasStamps = true ∧ (o.tStart.isSome = true ∨ o.tEnd.isSome = true) ∧ s = o.tStart ∧ e = o.tEnd := by
+  obtain ⟨pre, hp, rfl⟩ := apePlan_ok_iff.mp h
+  rw [List.append_assoc, mem_of_rank_lt (apeTail_rank o) (by simp [Step.rank])]
+  exact mem_pre_crop_iff hp
+
+/-- … and before the association: nothing after `associate` is a crop, and the association uses
+`t_max_diff` and `t_offset` as given (sign included) -/
+theorem apePlan_crop_on_ref_before_associate (o : CommonOpts) (steps l₁ l₂ : List Step) (m f : Rat)
+    (h : apePlan o = .ok steps) (e : steps = l₁ ++ Step.associate m f :: l₂) :
+    (∀ s t, Step.cropRef s t ∉ l₂) ∧ (∀ n, Step.downsample n ∉ l₂) ∧ (∀ d a, Step.motionFilter d a ∉ l₂) ∧
+      m = o.tMaxDiff ∧ f = o.tOffset := by
+  have hs := apePlan_order o steps h
+  refine ⟨fun s t hm => ?_, fun n hm => ?_, fun d a hm => ?_, ?_⟩
+  · have := rank_lt_of_split hs e hm; simp [Step.rank] at this
+  · have := rank_lt_of_split hs e hm; simp [Step.rank] at this
+  · have := rank_lt_of_split hs e hm; simp [Step.rank] at this
+  · obtain ⟨pre, hp, rfl⟩ := apePlan_ok_iff.mp h
+    have hm : Step.associate m f ∈ pre ++ [Step.metricApe o.rel] ++ unitPart o := by rw [e]; simp
+    rw [List.append_assoc, mem_of_rank_lt (apeTail_rank o) (by simp [Step.rank])] at hm
+    exact ((mem_pre_associate_iff hp).mp hm).2
+
+/-- the projection comes after every alignment step -/
+theorem apePlan_project_after_align (o : CommonOpts) (steps l₁ l₂ : List Step) (p : Plane)
+    (h : apePlan o = .ok steps) (e : steps = l₁ ++ Step.project p :: l₂) :
+    (∀ k n, Step.align k n ∉ l₂) ∧ Step.alignOrigin ∉ l₂ ∧ (∀ m f, Step.associate m f ∉ l₂) := by
+  have hs := apePlan_order o steps h
+  refine ⟨fun k n hm => ?_, fun hm => ?_, fun m f hm => ?_⟩
+  · have := rank_lt_of_split hs e hm; simp [Step.rank] at this
+  · have := rank_lt_of_split hs e hm; simp [Step.rank] at this
+  · have := rank_lt_of_split hs e hm; simp [Step.rank] at this
+
+/-- exactly one metric step, with the requested relation; `--t_start 0` is honoured -/
+theorem apePlan_metric (o : CommonOpts) (steps : List Step) (h : apePlan o = .ok steps) :
+    Step.metricApe o.rel ∈ steps ∧ (∀ r, Step.metricApe r ∈ steps → r = o.rel) ∧
+      (o.hasStamps = true → o.tStart = some 0 → Step.cropRef (some 0) o.tEnd ∈ steps) := by
+  refine ⟨?_, ?_, ?_⟩
+  · obtain ⟨pre, hp, rfl⟩ := apePlan_ok_iff.mp h; simp
+  · obtain ⟨pre, hp, rfl⟩ := apePlan_ok_iff.mp h
+    intro r hr
+    simp only [List.mem_append, List.mem_singleton] at hr
+    rcases hr with (hr | hr) | hr
+    · have := (prePlan_sorted hp).2 _ hr; simp [Step.rank] at this
+    · injection hr
+    · have := rank_unitPart hr; simp [Step.rank] at this
+  · intro hst h0
+    rw [apePlan_crop o steps h]
+    exact ⟨hst, Or.inl (by rw [h0]; rfl), h0.symm, rfl⟩
+
+/-- the plan is refused only for a motion filter on trajectories without timestamps -/
+theorem apePlan_refusal (o : CommonOpts) :
+    (∃ e, apePlan o = .error e) ↔ (o.motionFilter.isSome = true ∧ o.hasStamps = false) := by
+  constructor
+  · rintro ⟨e, he⟩
+    by_contra hc
+    have : prePlan o = .ok _ := prePlan_ok_iff.mpr ⟨hc, rfl⟩
+    have := apePlan_ok_iff.mpr ⟨_, this, rfl⟩
+    rw [he] at this; cases this
+  · intro hc
+    cases h : apePlan o with
+    | error e => exact ⟨e, rfl⟩
+    | ok steps =>
+      obtain ⟨pre, hp, _⟩ := apePlan_ok_iff.mp h
+      exact absurd hc (prePlan_ok_iff.mp hp).1
+
+/-! ### non-vacuity: concrete instances of the hypotheses -/
+
+/-- rotation by 90° about z -/
+def rz : M3 Rat := ⟨0, -1, 0, 1, 0, 0, 0, 0, 1⟩
+def pA : Pose Rat := ⟨rz, ⟨1, 2, 3⟩⟩
+def pB : Pose Rat := ⟨M3.one, ⟨4, 6, 3⟩⟩
+
+example : IsRot rz := ⟨by unfold IsOrtho; decide +kernel, by decide +kernel⟩
+example : IsRigid pA ∧ IsRigid pB := by constructor <;> (unfold IsRigid IsOrtho; decide +kernel)
+example : ape .trans [pA, pB] [pB, pB] = .ok [.sqrt 25, .sqrt 0] := by decide +kernel
+example : ape .rot [pA] [pB] = .ok [.sqrt 4] := by decide +kernel
+example : ape .full [pA] [pB] = .ok [.sqrt 29] := by decide +kernel
+example : ape .angleDeg [pA] [pB] = .ok [.angle 0 1 true] := by decide +kernel
+example : ape .trans [pA, pB] [pB] = .error .unequal := by decide +kernel
+example : ape .ratio [pA] [pB] = .error .unsupported := by decide +kernel
+/-- a block that is not a rotation is refused by the angle relations only -/
+example : ape .angleRad [pA] [⟨M3.smul 2 rz, ⟨0, 0, 0⟩⟩] = .error .notSO3 := by decide +kernel
+example : apeCore .full (pA.mul pA) (pA.mul pB) = apeCore .full pA pB := by decide +kernel
+
+def optsFull : CommonOpts :=
+  ⟨true, some 5, some (1/10, 5), some 0, none, 1/100, -1/2, false, true, 3, true, some .xy, .trans, some .mm⟩
+example : apePlan optsFull = .ok [.downsample 5, .motionFilter (1/10) 5, .cropRef (some 0) none,
+    .associate (1/100) (-1/2), .align .scaleOnly 3, .alignOrigin, .project .xy, .metricApe .trans, .changeUnit .mm] := by
+  decide +kernel
+example : apePlan { optsFull with hasStamps := false } = .error .filterNeedsStamps := by decide +kernel
 
 end Evo.C01
